@@ -385,12 +385,21 @@ def check_noskip(ctx, out, rule="C12.noskip"):
             out.inst(rule, 1, 1, ["%s: Ok without parse only via lookup==None" % fp.id])
 
 
+def _is_text_test(t):
+    """A call that inspects what a piece of text starts with / contains (not the search for the next `<` itself)."""
+    if callee_matches(t, r"<impl str>::(starts_with|ends_with|contains|strip_prefix|strip_suffix|get|get_unchecked|is_char_boundary|eq_ignore_ascii_case|as_bytes|bytes|chars|char_indices|split_at|split_once|trim_start_matches)$"):
+        return True
+    if callee_matches(t, r"PartialEq.*::(eq|ne)$|slice::<impl \[T\]>::(starts_with|ends_with|get)$") and re.search(r"\bstr\b|\[u8\]", (t.get("arg_tys") or [""])[0]):
+        return True
+    return False
+
+
 def check_candidates(ctx, out, rule="C12.candidates"):
     """Every `<` the tag scanner finds is offered to the tag grammar before the scanner moves on to the next one:
-    no way round the scan loop avoids every application of a tag parser. (A pre-check that sends some candidates
+    no way round the scan loop that tests the text after a position avoids every application of a tag parser (a way
+    round that only steps over characters that are not `<` is the search itself). (A pre-check that sends some candidates
     straight to the next `<` has to agree with the grammar on every spelling the grammar accepts; when it does
     not, an end tag is passed over, its block's start is reported as unclosed - or, alone, nothing is reported.)"""
-    from engine.core import on_any_view
     cands = [b for b in ctx.reachable_bodies()
              if b.promoted is None and "tag_parser" in b.id and b.kind in ("Fn", "AssocFn")
              and b.local_ty(0).startswith("std::result::Result<std::option::Option<blockwatch::tag_parser::BlockTag")]
@@ -402,35 +411,51 @@ def check_candidates(ctx, out, rule="C12.candidates"):
     def is_parse(t):
         return callee_matches(t, r"^winnow::.*::parse_(peek|next)$|^winnow::Parser::parse$")
 
-    def on(v, o):
+    def readable(v):
         c = cfg_of(v)
         P = {bi for bi, t in v.calls() if is_parse(t)}
         loops = [(h, bl) for h, bl in c.loops().items() if P & bl]
-        if not P or not loops:
-            o.inst(rule, 0, 1, note="no tag parser application inside a loop in this view")
-            return
-        h, bl = min(loops, key=lambda x: len(x[1]))
-        seen = set()
-        stack = [y for y in c.succ[h] if y in bl and y not in P]
-        back = h in stack
-        while stack and not back:
-            x = stack.pop()
-            if x in seen:
-                continue
-            seen.add(x)
-            for y in c.succ[x]:
-                if y == h:
-                    back = True
-                    break
-                if y in bl and y not in P and y not in seen:
-                    stack.append(y)
+        return (c, P, loops) if P and loops else None
+
+    # the most detailed view that shows the parser applications inside a loop decides (an adaptor such as
+    # `filter` in front of the loop is part of the loop only once it is expanded)
+    views = [lambda: ctx.inl(b0, skip=ctx.domain_api, tag="domain", sugar=True), lambda: ctx.inl(b0, tag="all"), lambda: b0]
+    for mk in views:
+        try:
+            v = mk()
+        except Exception:
+            continue
+        rd = readable(v)
+        if rd is None:
+            continue
+        c, P, loops = rd
+        h, bl = max(loops, key=lambda x: len(x[1]))
+        G = bl - P
+
+        def on_cycle(x):
+            seen, stack = set(), [y for y in c.succ[x] if y in G]
+            while stack:
+                y = stack.pop()
+                if y == x:
+                    return True
+                if y in seen:
+                    continue
+                seen.add(y)
+                stack.extend(z for z in c.succ[y] if z in G and z not in seen)
+            return False
+
+        # a way round that applies no parser is the scanner stepping over text that is not a `<` - unless a test of
+        # the *text after* the position lies on it
+        tests = [bi for bi, t in v.calls() if bi in G and _is_text_test(t)]
+        back = any(on_cycle(x) for x in tests)
         if back:
-            o.viol(rule, rule + "|bypass", ctx.where(v, v.blocks[h]["term"].get("span")),
-                   "the tag scanner can go on to the next `<` without offering the current one to a tag parser: a tag spelled in a way the skipping test does not expect (the grammar allows blanks inside `< /block >`) is passed over, and an end tag without an open block is then accepted silently")
-            o.inst(rule, 0, 1)
+            out.viol(rule, rule + "|bypass", ctx.where(v, v.blocks[h]["term"].get("span")),
+                     "the tag scanner can go on to the next `<` without offering the current one to a tag parser: a tag spelled in a way the skipping test does not expect (the grammar allows blanks inside `< /block >`) is passed over, and an end tag without an open block is then accepted silently")
+            out.inst(rule, 0, 0)
         else:
-            o.inst(rule, 1, 1, ["%s: every way round the scan loop applies one of %d tag parser calls" % (b0.id.split("::")[-2][:40], len(P))])
-    on_any_view(out, [b0, ctx.inl(b0, tag="all"), ctx.inl(b0, skip=ctx.domain_api, tag="domain", sugar=True)], on)
+            out.inst(rule, 1, 1, ["%s: every way round the scan loop applies one of %d tag parser calls" % (b0.id.split("::")[-2][:40], len(P))])
+        return
+    out.inst(rule, 0, 1, note="no tag parser application inside a loop in any view of the tag scanner")
 
 
 def check_scanner_end(ctx, out, rule="C12.scan"):
